@@ -1,4 +1,4 @@
-module verif/harness
+module verif/extract
 
 go 1.25.0
 
@@ -20,4 +20,4 @@ require (
 	golang.org/x/sys v0.45.0 // indirect
 )
 
-replace github.com/hashicorp/memberlist => /tmp/mut/C13-C
+replace github.com/hashicorp/memberlist => /tmp/mut/C13-D
